@@ -295,7 +295,9 @@ class ConnGen:
                 if m is not None:
                     return m
         if tl is None:
-            return self.step_bind(d, iface=d.choice(['xdg_toplevel', 'xdg_toplevel', 'zwlr_layer_shell_v1', 'wl_surface']))
+            self._title_next = True      # a title-bearing message should follow the bind soon
+            return self.step_bind(d, iface=d.choice(['xdg_toplevel', 'xdg_toplevel', 'xdg_toplevel', 'zwlr_layer_shell_v1', 'wl_surface']))
+        self._title_next = False
         name = d.choice(['set_title', 'set_app_id'])
         return dict(sent=self.sent(False), iface='xdg_toplevel', id=tl, name=name, args=[['str', '' if d.chance(0.25) else (d.choice(['b', 'B', 'c', 'C', 'a']) if d.chance(0.3) else d.choice(STRS))]])   # app ids that read like connection names
 
@@ -435,6 +437,8 @@ class ConnGen:
         w = self.profile.get('weights') or dict(delete=14, bind=12, message=40, server_event=10, deep=0, sync=4, enum=8, title=6, retype=6, newer=4, nulls=4)
         if kind is None:
             kind = d.weighted([(v, k) for k, v in sorted(w.items()) if v > 0])
+            if getattr(self, '_title_next', False) and w.get('title') and d.chance(0.7):
+                kind = 'title'
         m = None
         if kind == 'delete': m = self.step_delete(d)
         elif kind == 'bind': m = self.step_bind(d)
